@@ -4,7 +4,7 @@ import Pcore.Generated.Locksets
 import Pcore.Proofs.LazyCache
 import Pcore.Generated.CacheSites
 import Pcore.Proofs.InstantiateOnce
-import Pcore.Proofs.ConcQueue
+import Pcore.Proofs.ConcQueueStep
 import Pcore.Generated.QueueSites
 /-!
 # C13 — Shared loaders, types and values are safe under concurrent use
@@ -42,12 +42,35 @@ Full statement / proved / missing
   C13-type-cache-published-before-init) — but every site outside the five recorded functions does (`C13_publish_ok`:
   all lazily initialised fields are found by shape, so a new "assign, then complete in place" breaks the obligation) and the model built from that table exhibits the half-built answer
   (`C13_cache_half_built`), as the implementation does under the same schedule.
+  Completion writes: `C13_publish_completion_ok` — every write through a published cache pointer (second regenerated
+  table) assigns its location once, with the final value; `C13_cache_never_narrow` — for any tables satisfying that no
+  reader is ever handed a type that is NOT a type of the value (the half-built answers of the known finding are sound
+  placeholders), also when a fill is preempted inside its fold (slow elements); refuted for an in-place fold:
+  `C13_cache_fold_narrow`.
+* the runtime's loaders (`internal/runtime.go`, `rt.lock`): `C13_rt_lockset_ok` / `C13_rt_norace` over the second lock-set
+  table (a write needs the lock held exclusively, also through one level of unexported helpers);
+  `C13_rt_systemloader_read_races` — the recorded read of `rt.SystemLoader` after its `Unlock` is a race with `rt.Reset`.
 * file-based loading (`Model/InstantiateOnce.lean`: the lock-table / name-mutex / double-check protocol of
   `fileBasedLoader.instantiate`, including the deletion of the mutex from the table after unlocking):
   `C13_once` — under every interleaving the instantiator of a name runs at most once; `C13_once_bound` — and exactly once
   for every name that is bound, whose value is the one its file holds; `C13_placeholder_visible` — the known finding
   C13-placeholder-of-running-instantiation-visible is real in the model: a lookup answers not-found for a name with a file.
-* missing (stated, not hidden): the answer of a concurrent `Discover`; the instantiator's nested lookups, parse errors and
+* the declare / resolve queue (`Model/ConcQueue.lean`: `types.resolvableTypes` — appended to under `resolvableTypesLock`,
+  POPPED under the lock by `PopDeclaredTypes` and CONSUMED outside it by `internal.resolveResolvables`; Go slices with
+  explicit backing arrays, any initial capacity and growth policy): full clause `C13_queue_full` (a `def … : Prop`: once all
+  goroutines have finished every declared type is still pending, or bound exactly once and resolved exactly once);
+  proved for the variant the code has, over every interleaving of any number of goroutines:
+  `C13_queue_exactly_once` (= `C13_queue_full` of the `fresh` variant), `C13_queue_once` (never bound / resolved twice, at
+  every moment), `C13_queue_declared_only`, `C13_queue_bound_before_resolve` (a type is resolved only after every type
+  taken over with it is bound), `C13_queue_reads_popped` (what is read through the popped slice outside the lock is what
+  it held when popped; no nil read); REFUTED for the variant that keeps the backing array (`q = q[:0]`) and for the
+  variant that does not empty the queue: `C13_queue_reslice_loses`, `C13_queue_keep_resolves_twice`,
+  `C13_queue_full_fails_reslice`, `C13_queue_full_fails_keep`.  Tie: `C13_queue_sites_ok` — the table of every site of
+  the four guarded package-level queues regenerated from the Go sources satisfies the escape discipline (`decide`);
+  `C13_queue_cfg_of_table` — ANY table satisfying it configures the model with the `fresh` variant, hence
+  `C13_queue_impl_exactly_once`.
+* missing (stated, not hidden): what `Resolve` does inside (its lookups through the loader), the mappings / constructor /
+  function queues as executable models (their sites are in the table); the answer of a concurrent `Discover`; the instantiator's nested lookups, parse errors and
   type sets of file-based loading; nested containers and the other read paths (hash keys, type checks) of shared values; the Go memory model,
   the real scheduler, torn reads and `-race` findings cannot be exhibited by an interleaving model at all — the lock-set
   table is syntactic and trusted.
@@ -292,6 +315,57 @@ theorem C13_cache_half_built :
       ∃ t ∈ c.th, Obs.half ∈ t.log :=
   ⟨_, Reachable.step 1 (Reachable.step 0 Reachable.init), by decide⟩
 
+/-- `C13_lazy_caches` for Arrays that hold any number of slow elements (the fill can be preempted inside its fold) -/
+theorem C13_lazy_caches_slow (tbl : List CacheSite) (h : publishAfterInit tbl = true)
+    (hk : ∀ fn ∈ ["Array.privateReducedType", "Array.privateDetailedType", "Hash.privateReducedType", "Hash.privateDetailedType"],
+      tbl.any (·.fn == fn) = true)
+    (k : Kind) (n slow : Nat) (progs : List (List COp)) (c : Config)
+    (hr : Reachable (Cfg.ofTable tbl) (Config.init k n progs slow) c) : ∀ t ∈ c.th, ∀ o ∈ t.log, o = .full := by
+  rw [C13_cfg_of_table tbl h hk] at hr
+  exact (CInv_reachable (CInv_init k n progs slow) hr).2
+
+/-- obligation over the regenerated table of COMPLETION WRITES (the writes through a published cache pointer, between the
+    publication and the return of the five recorded fill functions): every location of a published object is written at
+    most once, with its final value — `once`, or slot i of a slice inside the loop over i.  An in-place fold
+    (`av.reducedType.typ = commonType(av.reducedType.typ, …)` in the loop over the elements) breaks it. -/
+theorem C13_publish_completion_ok : completionOK Pcore.Generated.cacheWrites = true := by decide
+
+/-- for ANY pair of tables whose completion writes satisfy the discipline — whether or not the publications come last —
+    no reader, under any interleaving, with any number of slow elements, is ever handed a type that is not a type of the
+    value: what a reader of a half-built cache gets is the placeholder or a final component (`half`: imprecise, never
+    `narrow`) -/
+theorem C13_cache_never_narrow (sites : List CacheSite) (writes : List CacheWrite) (h : completionOK writes = true)
+    (k : Kind) (n slow : Nat) (progs : List (List COp)) (c : Config)
+    (hr : Reachable (Cfg.ofTables sites writes) (Config.init k n progs slow) c) : ∀ t ∈ c.th, Obs.narrow ∉ t.log :=
+  NInv_reachable (NoFold_ofTables sites writes h) (NInv_init k n progs slow) hr
+
+/-- instantiated on the code as it is now (the model the `cache` lines run on the Lean side) -/
+theorem C13_impl_never_narrow (k : Kind) (n slow : Nat) (progs : List (List COp)) (c : Config)
+    (hr : Reachable (Cfg.ofTables Pcore.Generated.cacheSites Pcore.Generated.cacheWrites) (Config.init k n progs slow) c) :
+    ∀ t ∈ c.th, Obs.narrow ∉ t.log :=
+  C13_cache_never_narrow _ _ C13_publish_completion_ok k n slow progs c hr
+
+/-- the table the extractor emits for an in-place fold of the Array's element type -/
+def foldWrites : List CacheWrite :=
+  [{ fn := "Array.privateReducedType", target := "av.reducedType.typ", shape := .repeated },
+   { fn := "Array.privateReducedType", target := "av.reducedType.typ", shape := .repeated }]
+
+/-- REFUTED DISCIPLINE: with an in-place fold a second reader is handed a type that is not a type of the Array — thread 0
+    is parked inside its fold (at the slow element) when thread 1 asks -/
+theorem C13_cache_fold_narrow :
+    completionOK foldWrites = false ∧
+    ∃ c, Reachable (Cfg.ofTables Pcore.Generated.cacheSites foldWrites) (Config.init .arr 2 [[.ptype], [.ptype]] 1) c ∧
+      ∃ t ∈ c.th, Obs.narrow ∈ t.log :=
+  ⟨by decide, _, Reachable.step 1 (Reachable.step 0 (Reachable.step 0 Reachable.init)), by decide⟩
+
+-- non-vacuity of C13_cache_never_narrow: the same schedule under the current tables: thread 1 gets the placeholder (`half`)
+example : (stepAt (Cfg.ofTables Pcore.Generated.cacheSites Pcore.Generated.cacheWrites)
+      (stepAt (Cfg.ofTables Pcore.Generated.cacheSites Pcore.Generated.cacheWrites)
+        (stepAt (Cfg.ofTables Pcore.Generated.cacheSites Pcore.Generated.cacheWrites) (Config.init .arr 2 [[.ptype], [.ptype]] 1) 0) 0) 1).th.map (·.log)
+    = [[], [.half]] := by decide
+-- the current table has completion writes of both accepted shapes
+example : (Pcore.Generated.cacheWrites.map (·.shape)).contains .once = true ∧ (Pcore.Generated.cacheWrites.map (·.shape)).contains .perIndex = true := by decide
+
 -- non-vacuity of C13_lazy_caches: the table the extractor would emit for publication-last code meets the hypotheses
 def fixedSites : List CacheSite := Pcore.Generated.cacheSites.map fun s => { s with publishLast := true }
 example : publishAfterInit fixedSites = true ∧ Cfg.ofTable fixedSites = cleanCfg := by decide
@@ -375,6 +449,32 @@ theorem C13_lockset_ok : locksetOK Pcore.Generated.locksets = true := by decide
 theorem C13_impl_norace : ∀ a ∈ Pcore.Generated.locksets, ∀ b ∈ Pcore.Generated.locksets, ¬ Race a b :=
   C13_lockset_norace _ C13_lockset_ok
 
+/-- the runtime's lazily created loaders and its settings (`internal/runtime.go`, `rt.lock`): every site of the
+    regenerated table — outside the recorded read of `rt.SystemLoader` — follows the discipline; a WRITE needs the lock held
+    exclusively (`Lock`), so a lazy create-and-store reached under `RLock` — directly or through an unexported helper such as
+    `ensureSystemLoader`, whose lock set is the weakest its call sites give — breaks this obligation -/
+theorem C13_rt_lockset_ok : locksetOKExcept knownUnlockedReads Pcore.Generated.rtLocksets = true := by decide
+
+/-- … hence no two of those sites race -/
+theorem C13_rt_norace : ∀ a ∈ withoutKnown knownUnlockedReads Pcore.Generated.rtLocksets,
+    ∀ b ∈ withoutKnown knownUnlockedReads Pcore.Generated.rtLocksets, ¬ Race a b :=
+  C13_lockset_norace _ C13_rt_lockset_ok
+
+/-- the recorded site IS a race: `rt.SystemLoader` reads `p.systemLoader` after `p.lock.Unlock()`, `rt.Reset` writes it
+    (the full table does not satisfy the discipline) -/
+theorem C13_rt_systemloader_read_races :
+    locksetOK Pcore.Generated.rtLocksets = false ∧
+    ∃ a ∈ Pcore.Generated.rtLocksets, ∃ b ∈ Pcore.Generated.rtLocksets, Race a b ∧ a.fn = "rt.Reset" ∧ b.fn = "rt.SystemLoader" := by
+  decide
+
+-- the shape the obligation rejects: the create-and-store of ensureSystemLoader reached with the lock held shared
+example : accessOK { fn := "rt.ensureSystemLoader", field := "rt.systemLoader", write := true, held := [("lock", .r)], init := false } = false := by decide
+-- … while a read under the shared lock is fine (rt.Get, rt.Set read the settings map that way)
+example : accessOK { fn := "rt.Get", field := "rt.settings", write := false, held := [("lock", .r)], init := false } = true := by decide
+-- non-vacuity of C13_rt_norace: the table has a write/write pair on the system loader that only the exclusive lock keeps apart
+example : ∃ a ∈ withoutKnown knownUnlockedReads Pcore.Generated.rtLocksets, ∃ b ∈ withoutKnown knownUnlockedReads Pcore.Generated.rtLocksets,
+    a.field = b.field ∧ a.write = true ∧ b.write = true ∧ a.fn = "rt.Reset" ∧ b.fn = "rt.ensureSystemLoader" := by decide
+
 -- non-vacuity: the table has conflicting pairs (a write and a read of the entry map) that only the lock keeps apart
 example : ∃ a ∈ Pcore.Generated.locksets, ∃ b ∈ Pcore.Generated.locksets,
     a.field = b.field ∧ a.write = true ∧ b.write = false ∧ a.fn = "basicLoader.SetEntry" ∧ b.fn = "basicLoader.GetEntry" := by
@@ -401,15 +501,16 @@ theorem C13_queue_sites_ok : queueSitesOK Pcore.Generated.queueSites = true := b
 /-- the current table configures the model with the `fresh` variant -/
 theorem C13_queue_cfg_current : (Cfg.ofTable Pcore.Generated.queueSites).variant = .fresh := by decide
 
-/-- the table the extractor emits for "no need to allocate a fresh slice every time the list is popped" -/
-def resliceSites : List QueueSite := Pcore.Generated.queueSites.map fun s =>
-  if s.fn = "PopDeclaredTypes" ∧ s.kind = .escape then { s with rebind := .reslice }
-  else if s.fn = "PopDeclaredTypes" ∧ s.kind = .fresh then { s with kind := .reslice }
-  else s
-/-- … and for a pop that does not empty the queue at all -/
-def keepSites : List QueueSite := (Pcore.Generated.queueSites.filter fun s => !(s.fn = "PopDeclaredTypes" ∧ s.kind = .fresh)).map fun s =>
-  if s.fn = "PopDeclaredTypes" ∧ s.kind = .escape then { s with rebind := .none } else s
+def qsite (fn : String) (kind : SiteKind) (rebind : Rebind := .na) : QueueSite :=
+  { fn := fn, var := "types.resolvableTypes", kind := kind, rebind := rebind, held := ["resolvableTypesLock"], init := false }
+/-- the shape of the code as it is -/
+def freshSites : List QueueSite := [qsite "register" .append, qsite "Pop" .escape .freshIfNonEmpty, qsite "Pop" .fresh]
+/-- the table the extractor emits for "no need to allocate a fresh slice every time the list is popped" (`q = q[:0]`) -/
+def resliceSites : List QueueSite := [qsite "register" .append, qsite "Pop" .escape .reslice, qsite "Pop" .reslice]
+/-- … and for a pop that does not empty the queue (or empties it in a second critical section) -/
+def keepSites : List QueueSite := [qsite "register" .append, qsite "Pop" .escape .none]
 
+example : queueSitesOK freshSites = true ∧ (Cfg.ofTable freshSites).variant = .fresh := by decide
 -- the discipline rejects both, and the model is configured with the matching variant
 example : queueSitesOK resliceSites = false ∧ (Cfg.ofTable resliceSites).variant = .reslice := by decide
 example : queueSitesOK keepSites = false ∧ (Cfg.ofTable keepSites).variant = .keep := by decide
@@ -418,6 +519,107 @@ example : siteOK [] { fn := "Pop", var := "types.resolvableTypes", kind := .resl
 example : siteOK [] { fn := "Pop", var := "types.resolvableTypes", kind := .escape, rebind := .fresh, held := ["resolvableTypesLock"], init := false } = true := by decide
 example : siteOK [] { fn := "f", var := "types.resolvableTypes", kind := .read, rebind := .na, held := [], init := false } = false := by decide
 example : siteOK [] { fn := "f", var := "types.someNewQueue", kind := .append, rebind := .na, held := ["resolvableTypesLock"], init := false } = false := by decide
+
+/-- for ANY table of sites that satisfies the discipline the model is the `fresh` variant: the theorems below apply -/
+theorem C13_queue_cfg_of_table (tbl : List QueueSite) (h : queueSitesOK tbl = true) : (Cfg.ofTable tbl).variant = .fresh :=
+  variantOf_fresh tbl _ h
+
+/-- the clause of the property for the declare / resolve queue: whatever the interleaving, once every goroutine has
+    finished, every declared type is either still pending (once, untouched) or was bound exactly once and resolved exactly
+    once -/
+def C13_queue_full (cfg : Cfg) : Prop :=
+  ∀ (pend : Nat) (progs : List (List QOp)) (c : Config), Reachable cfg (Config.init cfg pend progs) c → Quiescent c →
+    allItemsOK c.sh = true
+
+/-- under EVERY interleaving of any number of goroutines that declare and resolve (any initial capacity, any growth policy
+    of `append`): no declared type is ever bound twice or resolved twice -/
+theorem C13_queue_once (cfg : Cfg) (hv : cfg.variant = .fresh) (pend : Nat) (progs : List (List QOp)) (c : Config)
+    (hr : Reachable cfg (Config.init cfg pend progs) c) (x : Nat) : c.sh.bound.count x ≤ 1 ∧ c.sh.resolved.count x ≤ 1 := by
+  have hi := Inv_reachable cfg hv (Inv_init cfg pend progs) hr
+  have h1 := hi.a1 x
+  have h2 := hi.a2 x
+  have h3 := hi.a3 x
+  have hb := occ_le_occ bdone batch x c.th (bdone_le_batch x)
+  have hr' := occ_le_occ rdone batch x c.th (rdone_le_batch x)
+  split at h1 <;> omega
+
+/-- … and only declared types are ever bound or resolved -/
+theorem C13_queue_declared_only (cfg : Cfg) (hv : cfg.variant = .fresh) (pend : Nat) (progs : List (List QOp)) (c : Config)
+    (hr : Reachable cfg (Config.init cfg pend progs) c) (x : Nat) (hx : x ∈ c.sh.bound ∨ x ∈ c.sh.resolved ∨ x ∈ qItems c.sh) :
+    x < c.sh.next := by
+  have hi := Inv_reachable cfg hv (Inv_init cfg pend progs) hr
+  have h1 := hi.a1 x
+  have h2 := hi.a2 x
+  have h3 := hi.a3 x
+  have hb := occ_le_occ bdone batch x c.th (bdone_le_batch x)
+  have hr' := occ_le_occ rdone batch x c.th (rdone_le_batch x)
+  have hc : 0 < c.sh.bound.count x ∨ 0 < c.sh.resolved.count x ∨ 0 < (qItems c.sh).count x := by
+    rcases hx with hx | hx | hx
+    · exact Or.inl (List.count_pos_iff.mpr hx)
+    · exact Or.inr (Or.inl (List.count_pos_iff.mpr hx))
+    · exact Or.inr (Or.inr (List.count_pos_iff.mpr hx))
+  split at h1
+  · assumption
+  · omega
+
+/-- the full clause holds of the variant the code has -/
+theorem C13_queue_exactly_once (cfg : Cfg) (hv : cfg.variant = .fresh) : C13_queue_full cfg := by
+  intro pend progs c hr hq
+  have hi := Inv_reachable cfg hv (Inv_init cfg pend progs) hr
+  have hidle : ∀ t ∈ c.th, t.pc = .idle := by
+    intro t ht
+    have := hq t ht
+    simp only [Thread.finished, Bool.and_eq_true, decide_eq_true_eq] at this
+    exact this.1
+  unfold allItemsOK
+  rw [List.all_eq_true]
+  intro x hx
+  have hx' : x < c.sh.next := List.mem_range.mp hx
+  have h1 := hi.a1 x
+  have h2 := hi.a2 x
+  have h3 := hi.a3 x
+  rw [occ_idle batch rfl x _ hidle] at h1
+  rw [occ_idle bdone rfl x _ hidle] at h2
+  rw [occ_idle rdone rfl x _ hidle] at h3
+  simp only [hx', if_true] at h1
+  unfold itemOK
+  by_cases hq0 : (qItems c.sh).count x = 0
+  · have : c.sh.fin.count x = 1 := by omega
+    simp [hq0, h2, h3, this]
+  · have hq1 : (qItems c.sh).count x = 1 := by omega
+    have : c.sh.fin.count x = 0 := by omega
+    simp [hq1, h2, h3, this]
+
+/-- when a type is about to be resolved, it and every type taken over together with it are bound already (the reason
+    `resolveResolvables` has two loops: a type may refer to another one of the same batch by name) -/
+theorem C13_queue_bound_before_resolve (cfg : Cfg) (hv : cfg.variant = .fresh) (pend : Nat) (progs : List (List QOp)) (c : Config)
+    (hr : Reachable cfg (Config.init cfg pend progs) c) (t : Thread) (ht : t ∈ c.th) (s : Slice) (b : List Item) (j : Nat) (y : Item)
+    (ev : List Ev) (hpc : t.pc = .resCall s b j y ev) : y ∈ b ∧ ∀ z ∈ b, z ∈ c.sh.bound := by
+  have hi := Inv_reachable cfg hv (Inv_init cfg pend progs) hr
+  have hp := hi.p t ht
+  rw [hpc] at hp
+  refine ⟨List.mem_of_getElem? hp.2, fun z hz => ?_⟩
+  have h2 := hi.a2 z
+  have hge := occ_ge bdone z c.th t ht
+  rw [hpc] at hge
+  have : 0 < b.count z := List.count_pos_iff.mpr hz
+  simp only [bdone] at hge
+  exact List.count_pos_iff.mp (by omega)
+
+/-- what a goroutine reads through the slice it took over — outside the lock — is what the slice held when it was popped,
+    whatever has been declared since; and reading it never faults -/
+theorem C13_queue_reads_popped (cfg : Cfg) (hv : cfg.variant = .fresh) (pend : Nat) (progs : List (List QOp)) (c : Config)
+    (hr : Reachable cfg (Config.init cfg pend progs) c) (t : Thread) (ht : t ∈ c.th) :
+    (∀ ev, Ans.fault ev ∉ t.log) ∧
+    (∀ s b j ev, (t.pc = .bindRead s b j ev ∨ t.pc = .resRead s b j ev) → j < s.len → slotAt c.sh.heap s j = b[j]? ∧ j < b.length) := by
+  have hi := Inv_reachable cfg hv (Inv_init cfg pend progs) hr
+  refine ⟨hi.f t ht, fun s b j ev hpc hj => ?_⟩
+  have hp := hi.p t ht
+  rcases hpc with hpc | hpc <;> (rw [hpc] at hp; exact ⟨slotAt_eq hp.1 hj, by rw [← hp.1.1]; exact hj⟩)
+
+/-- instantiated on the code as it is now (the model the `declq` lines run on the Lean side) -/
+theorem C13_queue_impl_exactly_once : C13_queue_full (Cfg.ofTable Pcore.Generated.queueSites) :=
+  C13_queue_exactly_once _ (C13_queue_cfg_of_table _ C13_queue_sites_ok)
 
 def resliceCfg : Cfg := { cleanCfg with variant := .reslice }
 def keepCfg : Cfg := { cleanCfg with variant := .keep }
@@ -446,5 +648,33 @@ theorem C13_queue_keep_resolves_twice :
 -- the same two runs in the variant the code has: everything is accounted for
 example : allItemsOK (execute cleanCfg 1 [[.resolve], [.decl]] [0, 1, 0, 0]).sh = true ∧
     allItemsOK (execute cleanCfg 1 [[.resolve], [.resolve]] []).sh = true := by decide +kernel
+
+end Pcore.ConcQueue
+
+namespace Pcore.ConcQueue
+
+/-- the full clause is FALSE of both refuted variants -/
+theorem C13_queue_full_fails_reslice : ¬ C13_queue_full resliceCfg := by
+  intro h
+  have := h 1 [[.resolve], [.decl]] lostConfig C13_queue_reslice_loses.1 C13_queue_reslice_loses.2.1
+  rw [C13_queue_reslice_loses.2.2.2.2.2.2] at this
+  cases this
+
+theorem C13_queue_full_fails_keep : ¬ C13_queue_full keepCfg := by
+  intro h
+  have := h 1 [[.resolve], [.resolve]] (execute keepCfg 1 [[.resolve], [.resolve]] []) (reachable_execute _ _ _ _)
+    C13_queue_keep_resolves_twice.1
+  rw [C13_queue_keep_resolves_twice.2.2] at this
+  cases this
+
+-- non-vacuity of C13_queue_bound_before_resolve / C13_queue_reads_popped: thread 0 took two types over, has bound both and
+-- is parked before the first Resolve while thread 1 has declared a third type into the (new) queue array
+def midConfig : Config := runSched cleanCfg (Config.init cleanCfg 2 [[.resolve], [.decl]]) [0, 0, 0, 1]
+example : (midConfig.th.map (·.pc)) = [.resCall ⟨0, 2⟩ [0, 1] 0 0 [.bind 0, .bind 1], .idle] ∧ midConfig.sh.bound = [0, 1] ∧
+    qItems midConfig.sh = [2] ∧ midConfig.sh.q = ⟨1, 1⟩ := by decide +kernel
+-- non-vacuity of C13_queue_exactly_once: a quiescent run in which one type stays pending and three were resolved, the
+-- first array (capacity 2 here) having overflowed
+example : let c := execute { cleanCfg with cap0 := 2 } 3 [[.resolve], [.decl]] [0, 1, 0, 0]
+    Quiescent c ∧ qItems c.sh = [3] ∧ c.sh.resolved = [0, 1, 2] ∧ c.sh.heap.length = 3 := by decide +kernel
 
 end Pcore.ConcQueue
